@@ -319,3 +319,37 @@ def run_controls(specs):
         except Exception as e:  # a crashing control is a broken check
             out.append({"name": name, "fired": False, "error": repr(e)})
     return out
+
+
+ALL_PROPS = ["C%02d" % i for i in range(1, 19)]
+
+
+def evaluate_tree(root, props=None):
+    """run the rules of the given properties on the tree at `root` (no evidence written);
+    returns {prop: {"violated": [...], "undecided": [...], "n": int}}"""
+    import importlib
+    facts, _ = ensure_facts(root, "lib")
+    prog = Program(facts)
+    an = Analysis(prog, max_rounds=40)
+    known = load_known()
+    out = {}
+    for prop in props or ALL_PROPS:
+        try:
+            mod = importlib.import_module("rss.rules.%s" % prop)
+        except ModuleNotFoundError:
+            continue
+        ctx = Ctx(prop, "quick", prog, an, label=root)
+        err = None
+        try:
+            mod.rules(ctx)
+        except Exception as e:  # a crashing rule on a mutated tree is reported, not hidden
+            import traceback
+            err = traceback.format_exc()[-600:]
+        kk = {k["key"] for k in known.get("known", []) if k.get("property") == prop}
+        out[prop] = {
+            "violated": [(o.id, o.status, o.loc, o.detail[:300]) for o in ctx.obligations
+                         if o.status in ("violated", "anchor-missing") or o.status is None and False],
+            "undecided": [o.id for o in ctx.obligations if o.status == "undecided"],
+            "n": len(ctx.obligations), "error": err,
+        }
+    return out
